@@ -127,6 +127,18 @@ void vs_check_block(const void *p)
     __CPROVER_assert(!(vg_k2 >= n && vg_k2 < VS_FAT) || ((const char *) p)[vg_k2] == VS_CANARY,
                      "heap: no byte written beyond the requested size of a block");
 }
+/* straight-line copy of one block (no loop to unwind, constant indices) */
+#define VS_C1(d, s, o) (d)[o] = (s)[o];
+#define VS_C8(d, s, o) VS_C1(d, s, o) VS_C1(d, s, o + 1) VS_C1(d, s, o + 2) VS_C1(d, s, o + 3) \
+                       VS_C1(d, s, o + 4) VS_C1(d, s, o + 5) VS_C1(d, s, o + 6) VS_C1(d, s, o + 7)
+#if VS_FAT == 8
+# define VS_COPY_BLOCK(d, s) do { VS_C8(d, s, 0) } while (0)
+#elif VS_FAT == 64
+# define VS_COPY_BLOCK(d, s) do { VS_C8(d, s, 0) VS_C8(d, s, 8) VS_C8(d, s, 16) VS_C8(d, s, 24) \
+                                  VS_C8(d, s, 32) VS_C8(d, s, 40) VS_C8(d, s, 48) VS_C8(d, s, 56) } while (0)
+#else
+# error "VS_FAT must be 8 or 64"
+#endif
 void *realloc(void *p, size_t n)
 {
     char *r;
@@ -140,7 +152,7 @@ void *realloc(void *p, size_t n)
     vs_req[__CPROVER_POINTER_OBJECT(r) % VS_OBJS] = (unsigned char) n;
     /* constant-size block copy (a copy of min(old, new) bytes with a symbolic length goes through the array
      * theory); the bytes beyond min(old, new) are then made arbitrary / canary again at the ghost index */
-    memcpy(r, p, VS_FAT);
+    VS_COPY_BLOCK(r, (const char *) p);
     if (vg_k2 >= m && vg_k2 < VS_FAT) r[vg_k2] = nondet_char();
     if (vg_k2 >= n && vg_k2 < VS_FAT) r[vg_k2] = VS_CANARY;
     free(p);
